@@ -649,6 +649,8 @@ func c20More(p *load.Prog, r *oblig.Run) {
 	c20NoEarlyExit(p, r)
 	c20Spouses(p, r)
 	c20ValidRange(p, r)
+	c20Producers(p, r)
+	c20Collects(p, r)
 	cb := p.Method(load.PkgRoot, "FamilyNode", "childrenBornBeforeParentsWarnings")
 	ctor := p.Func(load.PkgRoot, "NewChildBornBeforeParentWarning")
 	if cb == nil || ctor == nil {
